@@ -64,7 +64,7 @@ T, F = "TRUE", "FALSE"
 
 def mcdb_cfg(**kw):
     d = dict(MaxTx=2, MaxFail=1, MaxRestart=0, SyncRepl=T, Acks=1, AllowDiscard=T, WithReroute=T, Rejoin=T, ReportInMem=F, SkipPrecommitCheck=F,
-             DiscardKeepsAllowance=F, RecordSched=F, EmitDepth=0, inv="NoBad MCTypeOK", view="VIEW View\nSYMMETRY Sym")
+             DiscardKeepsAllowance=F, RecordSched=F, EmitDepth=0, inv="NoBad MCTypeOK StoreLevelInv", view="VIEW View\nSYMMETRY Sym")
     d.update(kw)
     return MCDB % d
 
@@ -104,32 +104,48 @@ def db_phase(chk, wd, out, binp):
     out["tlc"], out["notes"] = tlc_runs, notes
 
     def mc(name, workers=3, timeout=1500, extra=(), **kw):
-        r = vlib.run_tlc("MCReplicationDB", "mcdb.cfg", workers=workers, timeout=timeout, extra=list(extra), files=[("mcdb.cfg", mcdb_cfg(**kw))], tag="C07dbmc")
+        r = vlib.run_tlc("MCReplicationDB", "mcdb.cfg", workers=workers, timeout=timeout, extra=list(extra), files=[("mcdb.cfg", mcdb_cfg(**kw))], tag="C07dbmc",
+                         javaopts=["-XX:ParallelGCThreads=2", "-XX:CICompilerCount=2"])   # many small JVMs on a shared box
         if r.error:
             raise MachineryFault("MCReplicationDB %s: %s" % (name, r.error))
         tlc_runs.append((r, "MCReplicationDB " + name))
         return r
 
     jobs = {}
-    with cf.ThreadPoolExecutor(3) as ex:
-        # the design: no guard of ReplicationDB.tla is ever false, whatever the schedule (2 replicas + primary switch, re-pointing by
-        # reconfiguration and by re-routing, replica restart, rejoin of the lost primary)
-        jobs["design sync acks=1"] = ex.submit(mc, "design: sync, 1 ack, 2 txs, primary switch (reconfigure / re-route / rejoin)", workers=4)
-        jobs["design async"] = ex.submit(mc, "design: async, 2 txs, primary switch", SyncRepl=F, WithReroute=F)
-        jobs["coverage"] = ex.submit(mc, "design: sync, 1 ack, 1 tx, switch + restart (action coverage)", MaxTx=1, MaxRestart=1, extra=["-coverage", "1"])
+    tf = os.path.join(wd, "dbtrace.ndjson")
+    runs = 40 if thorough else 10
+
+    def harness(tag, extra, trace):
+        t0 = time.time()
+        hout, _ = vlib.run_harness(binp, ["-seed", str(chk.seed), "-dir", os.path.join(wd, "dbd_" + tag), "-out", trace] + extra, timeout=3000)
+        vlib.log("[c07db] %s in %.0fs" % (tag, time.time() - t0))
+        return json.loads(hout)
+
+    with cf.ThreadPoolExecutor(5 if not thorough else 4) as ex:
+        # real nodes under randomized schedules (runs beside the model checking)
+        hjob = ex.submit(harness, "random", ["-runs", str(runs)], tf + ".random")
+        rjob = ex.submit(harness, "repro", ["-repro", "stale-allowance"], tf + ".repro")
+        # the design: no guard of ReplicationDB.tla is ever false, whatever the schedule (2 replicas + primary switch; re-pointing by
+        # reconfiguration and by re-routing, replica restart, rejoin of the lost primary as a replica)
         if thorough:
-            jobs["design sync acks=2"] = ex.submit(mc, "design: sync, 2 acks, 2 txs, primary switch", Acks=2)
-            jobs["design sync acks=1 restart"] = ex.submit(mc, "design: sync, 1 ack, 2 txs, switch + restart", MaxRestart=1, workers=4)
-            jobs["design async restart"] = ex.submit(mc, "design: async, 2 txs, switch + restart + re-route", SyncRepl=F, MaxRestart=1)
-            jobs["design sync 3 txs"] = ex.submit(mc, "design: sync, 1 ack, 3 txs, primary switch by reconfiguration", MaxTx=3, WithReroute=F, Rejoin=F, workers=6, timeout=2400)
+            jobs["design sync 3 txs"] = ex.submit(mc, "design: sync, 1 ack, 3 txs, primary switch (reconfigure / re-route)", MaxTx=3, Rejoin=F, workers=6, timeout=2700)
+            jobs["design sync acks=1"] = ex.submit(mc, "design: sync, 1 ack, 2 txs, primary switch (reconfigure / re-route / rejoin)", workers=4)
+            jobs["design sync acks=2"] = ex.submit(mc, "design: sync, 2 acks, 2 txs, primary switch (reconfigure / re-route / rejoin)", Acks=2)
+            jobs["design sync restart"] = ex.submit(mc, "design: sync, 1 ack, 2 txs, switch + restart", MaxRestart=1, Rejoin=F, workers=4)
+            jobs["design async"] = ex.submit(mc, "design: async, 2 txs, switch + restart + re-route + rejoin", SyncRepl=F, MaxRestart=1)
+        else:
+            jobs["design sync acks=1"] = ex.submit(mc, "design: sync, 1 ack, 2 txs, primary switch (reconfigure / re-route)", Rejoin=F, workers=2)
+            jobs["design async"] = ex.submit(mc, "design: async, 2 txs, primary switch (reconfigure / re-route)", SyncRepl=F, Rejoin=F, workers=1)
+        jobs["coverage"] = ex.submit(mc, "design: sync, 1 ack, 1 tx, switch + rejoin + restart (action coverage)", MaxTx=1, MaxRestart=1, workers=1, extra=["-coverage", "1"])
         # weakened decisions must be caught by the guards (teeth), and give schedules that are replayed on the real code
-        jobs["teeth report"] = ex.submit(mc, "teeth: replica advertises its in-memory precommit", ReportInMem=T, RecordSched=T, MaxRestart=0)
-        jobs["teeth check"] = ex.submit(mc, "teeth: primary skips the precommit alh check", SkipPrecommitCheck=T, RecordSched=T, MaxRestart=0)
-        jobs["code allowance"] = ex.submit(mc, "code variant: a discard leaves the commit allowance", DiscardKeepsAllowance=T, RecordSched=T, MaxRestart=0)
-        num = 60 if thorough else 10
+        jobs["teeth report"] = ex.submit(mc, "teeth: replica advertises its in-memory precommit", ReportInMem=T, RecordSched=T, Rejoin=F, workers=1)
+        jobs["teeth check"] = ex.submit(mc, "teeth: primary skips the precommit alh check", SkipPrecommitCheck=T, RecordSched=T, Rejoin=F, workers=1)
+        jobs["code allowance"] = ex.submit(mc, "code variant: a discard leaves the commit allowance", DiscardKeepsAllowance=T, RecordSched=T, Rejoin=F, workers=2)
+        num = 60 if thorough else 12
         jobs["sim"] = ex.submit(mc, "simulated schedules", workers=1, MaxTx=5, MaxFail=2, MaxRestart=1, DiscardKeepsAllowance=T, RecordSched=T, EmitDepth=48,
                                 inv="Emit", view="", extra=["-simulate", "num=%d" % num, "-depth", "50", "-seed", str(chk.seed)])
         res = {k: j.result() for k, j in jobs.items()}
+        hrandom, out["repro"] = hjob.result(), rjob.result()
     for k, r in res.items():
         if k.startswith("design"):
             vlib.tlc_must_pass(r, "MCReplicationDB " + k)
@@ -167,16 +183,29 @@ def db_phase(chk, wd, out, binp):
         raise MachineryFault("MCReplicationDB simulation printed only %d schedules" % len(seen))
     sp = os.path.join(wd, "dbsched.json")
     json.dump(schedules, open(sp, "w"))
-    tf = os.path.join(wd, "dbtrace.ndjson")
-    runs = 40 if thorough else 7
-    t0 = time.time()
-    hout, _ = vlib.run_harness(binp, ["-seed", str(chk.seed), "-runs", str(runs), "-schedules", sp, "-dir", os.path.join(wd, "dbd"), "-out", tf], timeout=3000)
-    vlib.log("[c07db] %d schedules + %d random runs in %.0fs" % (len(schedules), runs, time.time() - t0))
-    out["harness"] = json.loads(hout)
-    rout, _ = vlib.run_harness(binp, ["-repro", "stale-allowance", "-dir", os.path.join(wd, "dbr"), "-out", os.path.join(wd, "dbr.ndjson")], timeout=300)
-    out["repro"] = json.loads(rout)
+    hsched = harness("tlc-schedules", ["-runs", "0", "-schedules", sp], tf + ".sched")
+    with open(tf, "w") as fh:
+        fh.write(open(tf + ".sched").read())
+        fh.write(open(tf + ".random").read())
+    for k, v in (hrandom.get("counters") or {}).items():
+        hsched["counters"][k] = hsched["counters"].get(k, 0) + v
+    for k in ("evaluations", "distinct_nontrivial", "traces"):
+        hsched[k] = hsched.get(k, 0) + hrandom.get(k, 0)
+    hsched["violations"] = (hsched.get("violations") or []) + (hrandom.get("violations") or [])
+    hsched["samples"] = (hsched.get("samples") or []) + (hrandom.get("samples") or [])
+    out["harness"] = hsched
     lines = open(tf).readlines()
-    tv = vlib.run_tlc("TraceReplicationDB", "TraceReplicationDB.cfg", workers=1, timeout=2400, env={"VERIF_TRACE": tf}, tag="C07dbtv")
+    if os.environ.get("VERIF_SELFTEST"):
+        # binding self-test: one report claims one more durably precommitted tx than the real replica reported
+        for i, x in enumerate(lines):
+            e = json.loads(x)
+            if e.get("ev") == "Report" and e.get("pid", 0) > 0:
+                e["pid"] += 1
+                lines[i] = json.dumps(e) + "\n"
+                break
+        open(tf, "w").writelines(lines)
+    tv = vlib.run_tlc("TraceReplicationDB", "TraceReplicationDB.cfg", workers=1, timeout=2400, env={"VERIF_TRACE": tf}, tag="C07dbtv",
+                      javaopts=["-XX:ParallelGCThreads=2", "-XX:CICompilerCount=2"])
     if tv.error and not tv.postcondition_failed:
         raise MachineryFault("TraceReplicationDB: " + tv.error)
     tlc_runs.append((tv, "TraceReplicationDB (%d events, %d runs)" % (len(lines), len(schedules) + runs)))
@@ -241,6 +270,9 @@ def db_fold(chk, out):
     chk.cov.setdefault("extra", {})["db_mc_action_coverage"] = out["coverage"]
     chk.cov["extra"]["db_guard_failures_collected"] = nbad
     chk.cov["extra"]["db_schedules"] = {"tlc": len(out["schedules"]), "random": ctr.get("db:runs:random-schedule", 0)}
+    chk.cov["rule"] = (chk.cov.get("rule") or "") + "; database level: one trace per run of 3 real databases replicated by the real TxReplicator under a gated schedule " \
+        "(TLC counterexample of a weakened variant, TLC-simulated behaviour, or seeded random schedule; config rotates over sync/async, 1/2 acks, tx discarding, " \
+        "1-3 replication workers, duplicated deliveries), evaluations = executed scheduler steps"
     chk.notes += out["notes"]
 
 
